@@ -58,27 +58,32 @@ Definition cfg_preds (succs : list (list (option nat))) : list (list nat) :=
   List.map (fun j => List.map snd (List.filter (fun e => Nat.eqb (fst e) j) edges)) (seq 0 n).
 
 (* ---------------------------------------------------------------- declarative spec (property text) *)
-(* first instruction index at or after node position: the instruction following a label *)
-Fixpoint instr_index_at (ns : list node) (pos : nat) : nat :=   (* number of instructions before node position pos *)
-  match pos, ns with
-  | O, _ => O
-  | S p, [] => O
-  | S p, NInstr _ :: r => S (instr_index_at r p)
-  | S p, _ :: r => instr_index_at r p
-  end.
-Definition label_positions (ns : list node) (l : string) : list nat :=
-  List.map fst (List.filter (fun p => match snd p with NLabel l' => String.eqb l l' | _ => false end) (index_list ns)).
 Definition ninstr (ns : list node) := List.length (instructions ns).
+Definition labels_of (ns : list node) : list string := flat_map (fun n => match n with NLabel l => [l] | _ => [] end) ns.
+(* the instruction a label is bound to: the number of instructions before the label, i.e. the index of
+   the first instruction after it *)
+Fixpoint lab_idx (ns : list node) (i : nat) : list (string * nat) :=
+  match ns with
+  | [] => []
+  | NInstr _ :: r => lab_idx r (S i)
+  | NLabel l :: r => (l, i) :: lab_idx r i
+  | _ :: r => lab_idx r i
+  end.
+Definition spec_target (ns : list node) (l : string) : option nat := assoc (lab_idx ns 0) l.
+Fixpoint has_dup (l : list string) : bool := match l with [] => false | x :: r => existsb (String.eqb x) r || has_dup r end.
 
 (* errors the property names *)
-Definition has_duplicate_label (ns : list node) : bool :=
-  existsb (fun n => match n with NLabel l => Nat.ltb 1 (List.length (label_positions ns l)) | _ => false end) ns.
-Definition label_without_instr (ns : list node) : bool :=
-  existsb (fun p => match snd p with NLabel _ => Nat.eqb (instr_index_at ns (fst p)) (ninstr ns) | _ => false end) (index_list ns).
+Definition has_duplicate_label (ns : list node) : bool := has_dup (labels_of ns).
+Fixpoint label_without_instr (ns : list node) : bool :=     (* some label has no instruction after it *)
+  match ns with
+  | [] => false
+  | NLabel _ :: r => Nat.eqb (ninstr r) 0 || label_without_instr r
+  | _ :: r => label_without_instr r
+  end.
 Definition branch_nonlabel (ns : list node) : bool :=
   existsb (fun i => is_branch i && match target_label i with None => true | Some _ => false end) (instructions ns).
 Definition branch_undefined (ns : list node) : bool :=
-  existsb (fun i => is_branch i && match target_label i with Some l => match label_positions ns l with [] => true | _ => false end | None => false end) (instructions ns).
+  existsb (fun i => is_branch i && match target_label i with Some l => match spec_target ns l with None => true | Some _ => false end | None => false end) (instructions ns).
 Definition cfg_should_fail (ns : list node) : bool :=
   has_duplicate_label ns || label_without_instr ns || branch_nonlabel ns || branch_undefined ns.
 
@@ -87,11 +92,11 @@ Definition spec_succs (ns : list node) (i : nat) (cur : instr) : list (option na
   let n := ninstr ns in
   (if is_branch cur then
      match target_label cur with
-     | Some l => match label_positions ns l with p :: _ => [Some (instr_index_at ns p)] | [] => [] end
+     | Some l => match spec_target ns l with Some t => [Some t] | None => [] end
      | None => []
      end
    else [])
-  ++ (if is_terminal cur || is_unconditional_branch cur then [] else [if Nat.ltb (S i) n then Some (S i) else None]).
+  ++ (if is_terminal cur then [] else if is_unconditional_branch cur then [] else [if Nat.ltb (S i) n then Some (S i) else None]).
 
 Definition succs_eqb (a b : list (list (option nat))) : bool := list_eqb (list_eqb (option_eqb Nat.eqb)) a b.
 Definition preds_eqb (a b : list (list nat)) : bool := list_eqb (list_eqb Nat.eqb) a b.
